@@ -231,6 +231,25 @@ func c12Specs() []*edt.Spec {
 			Formula: map[string]func(e *edt.Env) edt.Tri{"sign-bytes": always},
 		},
 		{
+			// key expansion: transcript "ExpandSecretKeys", mini key under "mini", 64 bytes "sk" reduced to the key, then "no" as the nonce
+			Pkg: "primitives/sr25519", Func: "(*MiniSecretKey).ExpandUniform", WritesOverride: merlinWrites, MinPaths: 2,
+			Abbrev: [][2]string{{"Transcript.ExtractBytes(Transcript.AppendMessage(merlin.NewTranscript(\"ExpandSecretKeys\"), \"mini\", $msk), zero, \"sk\")", "SK"}},
+			Vars:   map[string]string{"isnil(err(scalar.NewFromBytesModOrderWide(out1(SK))))": "wideOK"},
+			Classify: func(p *edt.Path, out string, e *edt.Env) string {
+				switch {
+				case strings.HasPrefix(out, "panic("):
+					return "panic"
+				case out == "&new(agg(.key=(res0(scalar.NewFromBytesModOrderWide(out1(SK)))), .nonce=(out1(Transcript.ExtractBytes(SK, zero, \"no\")))))":
+					return "expanded"
+				}
+				return ""
+			},
+			Formula: map[string]func(e *edt.Env) edt.Tri{
+				"expanded": func(e *edt.Env) edt.Tri { return e.V("wideOK") },
+				"panic":    func(e *edt.Env) edt.Tri { return edt.Not(e.V("wideOK")) },
+			},
+		},
+		{
 			// XOF transcripts: 32 bytes of XOF output under schnorrkel's label "sign-XoF"; a failed read panics
 			Pkg: "primitives/sr25519", Func: "(*SigningContext).NewTranscriptXOF", WritesOverride: merlinWrites, MinPaths: 2,
 			Vars: map[string]string{"isnil(err(io.ReadFull(zero)))": "readOK"},
